@@ -11,9 +11,37 @@ structure Codec (α : Type) where
   F : FieldOps α
   elem? : Arg → Option α
   fmtL : List α → String
+  rnd : Nat → Nat → Option (List α)
+
+/-- SplitMix64 as in `harness/src/util.rs` (`Rng::new(seed)`, `next`, `below`) -/
+def smNext (s : UInt64) : UInt64 × UInt64 :=
+  let s := s + 0x9E3779B97F4A7C15
+  let z := s
+  let z := (z ^^^ (z >>> 30)) * 0xBF58476D1CE4E5B9
+  let z := (z ^^^ (z >>> 27)) * 0x94D049BB133111EB
+  (z ^^^ (z >>> 31), s)
+
+def smStream (seed : Nat) (count : Nat) : List Nat :=
+  let rec go : Nat → UInt64 → Array Nat → Array Nat
+    | 0, _, acc => acc
+    | k+1, s, acc =>
+      let (v, s') := smNext s
+      go k s' (acc.push (v.toNat % TF.Gen.P))
+  (go count (UInt64.ofNat seed ^^^ 0x9E3779B97F4A7C15) #[]).toList
+
+/-- compact pseudo-random list `R:<seed>:<len>`; `arity` uniform values per element -/
+def compact? (s : String) : Option (Nat × Nat) :=
+  match s.splitOn ":" with
+  | ["R", a, b] => do let a ← a.toNat?; let b ← b.toNat?; pure (a, b)
+  | _ => none
+
+def group3 : List Nat → List (Nat × Nat × Nat)
+  | a :: b :: c :: rest => (a, b, c) :: group3 rest
+  | _ => []
 
 def elems? {α : Type} (c : Codec α) : Arg → Option (List α)
   | .list xs => xs.mapM c.elem?
+  | .sym s => do let (seed, len) ← compact? s; c.rnd seed len
   | _ => none
 def matrix? {α : Type} (c : Codec α) : Arg → Option (List (List α))
   | .list xs => xs.mapM (elems? c)
@@ -23,6 +51,7 @@ def bCodec : Codec Nat where
   F := bfieldOps
   elem? := fun a => a.nat?.map (· % TF.Gen.P)
   fmtL := fmtList
+  rnd := fun seed len => some (smStream seed len)
 
 def xCodec : Codec Spec.X3 where
   F := xfieldOps
@@ -31,6 +60,7 @@ def xCodec : Codec Spec.X3 where
     | .nat a => some (a % TF.Gen.P, 0, 0)
     | _ => none
   fmtL := fmtTripleList
+  rnd := fun seed len => some (group3 (smStream seed (3 * len)))
 
 section
 variable {α : Type} (c : Codec α)
@@ -53,6 +83,8 @@ def handle (op : String) (args : List Arg) : Option String :=
   let E : Ext α := Ext.std F
   let L := elems? c
   let big (n : Nat) : Option Unit := if n > limit then none else some ()
+  -- the coset routines with few points are cheap in the model up to 2^18
+  let bigC (n : Nat) : Option Unit := if n > 600000 then none else some ()
   match op, args with
   | "evaluate", [p, x] => do
       let p ← L p; let x ← c.elem? x
@@ -105,7 +137,7 @@ def handle (op : String) (args : List Arg) : Option String :=
       let p ← L p; big (p.length + order)
       pure (okVals c (fastCosetEvaluate F E p (F.ofNat off) order))
   | "fast_coset_interpolate", [.nat off, v] => do
-      let v ← L v; big v.length
+      let v ← L v; bigC v.length
       pure (okPoly c (fastCosetInterpolate F E (F.ofNat off) v))
   | "barycentric_evaluate", [cw, x] => do
       let cw ← L cw; let x ← c.elem? x; big cw.length
@@ -113,17 +145,17 @@ def handle (op : String) (args : List Arg) : Option String :=
         | some v => "ok:" ++ c.fmtL [v]
         | none => "panic")
   | "coset_extrapolate", [.nat off, cw, pts] => do
-      let cw ← L cw; let pts ← L pts; big (cw.length + pts.length)
+      let cw ← L cw; let pts ← L pts; bigC (cw.length + pts.length); big (pts.length * 20)
       pure (okVals c (cosetExtrapolate F E (F.ofNat off) cw pts))
   | "batch_coset_extrapolate", [.nat off, .nat n, cws, pts] => do
-      let cws ← L cws; let pts ← L pts; big (cws.length + pts.length)
+      let cws ← L cws; let pts ← L pts; bigC (cws.length + pts.length); big (pts.length * 20)
       pure (okVals c (batchCosetExtrapolate F E (F.ofNat off) n cws pts))
   | "par_batch_coset_extrapolate", [.nat _, .nat off, .nat n, cws, pts] => do
-      let cws ← L cws; let pts ← L pts; big (cws.length + pts.length)
+      let cws ← L cws; let pts ← L pts; bigC (cws.length + pts.length); big (pts.length * 20)
       pure (okVals c (batchCosetExtrapolate F E (F.ofNat off) n cws pts))
   | "fmci", [.nat off, v, pts] => do
       -- modulus = prod (X - p_j) over the given points
-      let v ← L v; let pts ← L pts; big (v.length + pts.length)
+      let v ← L v; let pts ← L pts; bigC (v.length + pts.length); big (pts.length * 20)
       pure (okPoly c (fmci F E Thr.src v (F.ofNat off) (smartZerofier F pts)))
   | _, _ => none
 
